@@ -127,10 +127,12 @@ func MarshalInputToOptions(input protoiface.MarshalInput) proto.MarshalOptions {
 func UnmarshalInputToOptions(input protoiface.UnmarshalInput) proto.UnmarshalOptions {
 	return proto.UnmarshalOptions{
 		NoUnkeyedLiterals: input.NoUnkeyedLiterals,
-		Merge:             false,
-		AllowPartial:      true, // defaults to true as the required fields check is done after the unmarshalling
-		DiscardUnknown:    input.Flags&protoiface.UnmarshalDiscardUnknown != 0,
-		Resolver:          input.Resolver,
+		// nested targets are either freshly allocated by the generated code or already hold
+		// data that a repeated occurrence of the field must be merged into, never reset
+		Merge:          true,
+		AllowPartial:   true, // defaults to true as the required fields check is done after the unmarshalling
+		DiscardUnknown: input.Flags&protoiface.UnmarshalDiscardUnknown != 0,
+		Resolver:       input.Resolver,
 	}
 }
 
